@@ -12,14 +12,29 @@ def sh(cmd, **kw):
     return subprocess.run(cmd, shell=True, stdout=subprocess.PIPE, stderr=subprocess.STDOUT, text=True, **kw)
 
 def main():
-    wt, out, prop = sys.argv[1], sys.argv[2], sys.argv[3]
+    src_wt, out, prop = sys.argv[1], sys.argv[2], sys.argv[3]
     sid = sys.argv[4] if len(sys.argv) > 4 else prop + "_a"
     dest = f"/verif/seeded/{sid}"
     os.makedirs(dest, exist_ok=True)
-    diff = sh(f"git -C {wt} diff").stdout
+    diff = sh(f"git -C {src_wt} diff").stdout if os.path.isdir(src_wt) else open(f"{out}/patch.diff").read()
     if not diff.strip():
-        print("no change applied in", wt); return 2
+        diff = open(f"{out}/patch.diff").read()
     open(f"{dest}/patch.diff", "w").write(diff)
+    # always confirm on a fresh worktree of /repo's CURRENT HEAD (the author's worktree may predate later fix: commits)
+    wt = f"/tmp/seedwt_{sid}"
+    sh(f"git -C /repo worktree remove --force {wt}")
+    r = sh(f"git -C /repo worktree add --detach {wt} HEAD")
+    assert r.returncode == 0, r.stdout
+    r = sh(f"git -C {wt} apply {dest}/patch.diff")
+    if r.returncode != 0:
+        print("patch does not apply to current HEAD:", r.stdout); sh(f"git -C /repo worktree remove --force {wt}"); return 2
+    try:
+        return confirm(wt, out, prop, sid, dest)
+    finally:
+        sh(f"git -C /repo worktree remove --force {wt}")
+
+
+def confirm(wt, out, prop, sid, dest):
     meta = {"seed_id": sid, "property": prop, "base_commit": sh(f"git -C {wt} rev-parse HEAD").stdout.strip(), "ran": {}}
     env = dict(os.environ, PYTHONPATH=wt, PYTHONDONTWRITEBYTECODE="1", PYTHONWARNINGS="ignore")
     demo = f"{out}/demo.py"
